@@ -594,8 +594,8 @@ def leaf_kinds(types, dom, ran, mode='c04'):
 
 
 @st.composite
-def leaves(draw, types, dom, ran, mode='c04'):
-    kinds = leaf_kinds(types, dom, ran, mode)
+def leaves(draw, types, dom, ran, mode='c04', kinds=None):
+    kinds = kinds or leaf_kinds(types, dom, ran, mode)
     if not kinds:
         raise HarnessError('no leaf for {} -> {}'.format(dom, ran))
     kind = draw(st.sampled_from(kinds))
@@ -934,7 +934,7 @@ def trees(draw, types, dom, ran, depth, mode='c04', pairs=None,
             # domain (aliased in-place evaluation is then possible)
             rules += ['flvec'] * (3 if dom == ran else 1)
     if dom == ran:
-        rules += ['pow']
+        rules += ['pow'] * (3 if D.discr and mode == 'c04' else 1)
     if R.cat == 'field' and dom_space and ran == fkey_dom and mode == 'c04':
         rules += ['translated']
     if mode == 'c06' and R.cat == 'leaf' and depth >= 2:
@@ -1115,8 +1115,32 @@ def trees(draw, types, dom, ran, depth, mode='c04', pairs=None,
         node['fk'] = child['fk'] if not ran_space else 'op'
         return node
     if rule == 'pow':
+        stencils = [k for k in leaf_kinds(types, dom, ran, mode)
+                    if k in ('partial', 'laplacian')]
+        if mode == 'c04' and stencils and \
+                draw(st.sampled_from([True, True, False])):
+            # A ** n, n in 3..5, over a finite-difference leaf or a small
+            # expression of it (their in-place code is not alias-safe, so
+            # sharing of temporaries between the nested compositions shows)
+            lf = draw(leaves(types, dom, ran, mode,
+                             kinds=sorted(set(stencils))))
+            shape = draw(st.sampled_from(['leaf', 'affine', 'scaled']))
+            if shape != 'leaf':
+                lf = {'op': 'lscal', 'dom': dom, 'ran': ran, 'fk': 'op',
+                      'how': 'op', 'a': lf,
+                      's': draw(scalars(tinfo(types, fkey_ran).cplx,
+                                        classes=['generic']))}
+            if shape == 'affine':
+                lf = {'op': 'addscal', 'dom': dom, 'ran': ran, 'fk': 'op',
+                      'how': 'A+c', 'a': lf,
+                      's': draw(scalars(tinfo(types, fkey_ran).cplx,
+                                        classes=['one', 'generic']))}
+            node['a'] = lf
+            node['n'] = draw(st.sampled_from([3, 4, 5]))
+            node['how'] = 'op'
+            return node
         node['a'] = sub_full()
-        node['n'] = draw(st.sampled_from([1, 2, 2, 3]))
+        node['n'] = draw(st.sampled_from([1, 2, 2, 3, 3, 4, 5]))
         node['how'] = 'op'
         node['fk'] = node['a']['fk'] if node['n'] == 1 else 'op'
         return node
